@@ -163,7 +163,15 @@ class MExpander(Expander):
             a, b = self.need_m(self.eval(node.left, env)), self.need_m(self.eval(node.right, env))
             return a + b if isinstance(op, ast.Add) else a - b
         if isinstance(op, ast.Mult):
-            a, b = self.need_m(self.eval(node.left, env)), self.need_m(self.eval(node.right, env))
+            av, bv = self.eval(node.left, env), self.eval(node.right, env)
+            # scalar * array([e_1, .., e_k]) (an array built from a list of scalars): every entry scaled
+            for lv_, sv_ in ((av, bv), (bv, av)):
+                if isinstance(lv_, ListV) and not isinstance(sv_, (ListV, TupleV)):
+                    sc = self.need_m(sv_)
+                    if sc.rank == 0:
+                        return ListV([self.need_m(x).times_scalar(sc) if self.need_m(x).rank == 0 else self.need_m(x).times_scalar(sc)
+                                      for x in lv_.items])
+            a, b = self.need_m(av), self.need_m(bv)
             if a.rank == 0 or b.rank == 0:
                 return a.times_scalar(b) if b.rank == 0 else b.times_scalar(a)
             # outer product a[:, None] * b[None, :]
@@ -295,6 +303,18 @@ class MExpander(Expander):
             return v
         if isinstance(f, ast.Attribute) and f.attr in ("copy", "squeeze") and not node.args:
             return self.eval(f.value, env)
+        # X.item(): the single entry of a one-entry array - the scalar X[0] / X[0, 0]
+        if isinstance(f, ast.Attribute) and f.attr == "item" and not node.args and not node.keywords:
+            b = self.need_m(self.eval(f.value, env))
+            return ncf.scalarise(b.terms) if b.rank in (1, 2) else b
+        # v.reshape(-1, 1) / v.reshape(1, -1): the column / row view of a vector, as v[:, None] / v[None, :]
+        if isinstance(f, ast.Attribute) and f.attr == "reshape" and not node.keywords:
+            shp = node.args[0].elts if len(node.args) == 1 and isinstance(node.args[0], (ast.Tuple, ast.List)) else node.args
+            st_ = [ast.unparse(x) for x in shp]
+            if st_ in (["-1", "1"], ["1", "-1"]):
+                b = self.need_m(self.eval(f.value, env))
+                if b.rank == 1:
+                    return M(dict(b.terms), 2) if st_ == ["-1", "1"] else M(ncf._row(b.terms), 2)
         if short == "diag" and len(node.args) == 1:
             v = self.need_m(self.eval(node.args[0], env))
             if v.rank == 1 and len(v.terms) == 1 and list(v.terms.values()) == [1]:
